@@ -7,7 +7,14 @@ import random
 import re
 from typing import Dict, List, Optional, Tuple
 
-from ..framework import Check, coq_bool, coq_zlist
+import os
+import shutil
+import subprocess
+import tempfile
+from concurrent.futures import ThreadPoolExecutor
+from pathlib import Path
+
+from ..framework import Check, coq_bool, coq_zlist, PY, impl_env
 from ..defs_common import FAM, run_impl, native_names, yaml_struct, regen_or_report
 
 THEOREMS = ["C11_natives_wf", "C11_aligned", "C11_autopad_only_adds_char_padding", "C11_nopad_iff",
@@ -284,6 +291,120 @@ def gen_cases(rng: random.Random, tier: str, names: Dict[int, List[str]]):
             yield [s0, s1, s2], ap, ap, "reuse-nest"
 
 
+# ---- the command line: every way of switching automatic padding off ----------------------------------------
+
+CLI_YAML_OPTS = {"absent": None, "AUTO_PAD-true": {"AUTO_PAD": True}, "AUTO_PAD-false": {"AUTO_PAD": False},
+                 "VALIDATE_ALIGNMENT-false": {"VALIDATE_ALIGNMENT": False},
+                 "AUTO_PAD-false+VALIDATE_ALIGNMENT-true": {"AUTO_PAD": False, "VALIDATE_ALIGNMENT": True}}
+CLI_FLAGS = {"none": [], "--no_auto_pad": ["--no_auto_pad"], "--no_val_align": ["--no_val_align"]}
+
+
+def cli_effective(opts: Optional[dict], flags: List[str]) -> Tuple[bool, bool]:
+    """(validate_alignment, auto_pad) the command line must end up with.  Specification taken from compile.py main():
+    the defaults (both on) are replaced by the root file's compiler_options, which become the defaults of the
+    store_false flags; a flag can only switch a setting off.  An explicit `false` in the YAML switches it off."""
+    o = opts or {}
+    va = bool(o.get("VALIDATE_ALIGNMENT", True)) and "--no_val_align" not in flags
+    ap = bool(o.get("AUTO_PAD", True)) and "--no_auto_pad" not in flags
+    return va, ap
+
+
+def cli_closures(names) -> List[Tuple[str, list]]:
+    return [("none-needed", [("fields", [("n", "double", None), ("n", "int32", None), ("n", "int32", None)])]),
+            ("leading-inline", [("fields", [("n", "char", None), ("n", "double", None)])]),
+            ("trailing", [("fields", [("n", "double", None), ("n", "int32", None)])]),
+            ("array-element", [("fields", [("n", "double", None), ("n", "int16", 2), ("n", "int32", None)]),
+                               ("fields", [("n", "int32", None), ("n", "int32", None), ("r", 0, 2)])]),
+            ("nested-needs-inline", [("fields", [("n", "int64", None)]),
+                                     ("fields", [("n", "int16", None), ("r", 0, None), ("n", "char", 8)])])]
+
+
+def run_cli(yaml_text: str, flags: List[str], fields_of: Optional[List[Tuple[str, List[str]]]]) -> dict:
+    """`python -m pyrtma.compile --c -i root.yaml -o out --no_core_import <flags>` in a fresh interpreter"""
+    from ..defs_worker import c_probe
+    d = Path(tempfile.mkdtemp(prefix="vcli11_"))
+    try:
+        (d / "root.yaml").write_text(yaml_text)
+        (d / "out").mkdir()
+        cmd = [PY, "-m", "pyrtma.compile", "--c", "-i", "root.yaml", "-o", "out", "--no_core_import"] + flags
+        p = subprocess.run(cmd, cwd=str(d), capture_output=True, text=True, env=impl_env(), timeout=300)
+        out = dict(rc=p.returncode, text=(p.stdout + p.stderr)[-1500:], cmd=" ".join(cmd[1:]), probe=None)
+        m = re.search(r"^(\w+(?:Error|Size)):", p.stdout + p.stderr, re.M)
+        out["exc"] = m.group(1) if m else None
+        if p.returncode == 0 and fields_of and (d / "out" / "root.h").exists():
+            out["probe"] = c_probe(d / "out" / "root.h", fields_of, d / "out")
+        return out
+    except Exception as e:  # noqa
+        return dict(rc=-1, text=f"{type(e).__name__}: {e}", cmd="", probe=None, exc="HARNESS")
+    finally:
+        shutil.rmtree(d, ignore_errors=True)
+
+
+def check_command_line(chk: Check, names, nat_size, dist: Dict[str, int], nontrivial: set) -> Tuple[List[str], int]:
+    """returns extra Coq cases (the in-process run at the effective settings, which the command line must reproduce)"""
+    combos = [(yo, fl) for yo in CLI_YAML_OPTS for fl in CLI_FLAGS]
+    jobs = []
+    for cname, structs in cli_closures(names):
+        for yo, fl in combos:
+            opts = CLI_YAML_OPTS[yo]
+            head = "" if opts is None else "compiler_options:\n" + "".join(
+                f"  {k}: {'true' if v else 'false'}\n" for k, v in opts.items()) + "\n"
+            jobs.append((cname, structs, yo, fl, head + to_yaml(structs)))
+    # reference: the parser called directly with the effective settings (this is what goes through the model)
+    eff = [cli_effective(CLI_YAML_OPTS[yo], CLI_FLAGS[fl]) for _, _, yo, fl, _ in jobs]
+    ref = run_impl([dict(files={"root.yaml": to_yaml(structs)}, root="root.yaml", auto_pad=ap, validate_alignment=va,
+                         import_coredefs=False, emit=["c"], probe_c=True)
+                    for (_, structs, _, _, _), (va, ap) in zip(jobs, eff)])
+    coq_cases = []
+    with ThreadPoolExecutor(16) as ex:
+        cli = list(ex.map(lambda jr: run_cli(jr[0][4], CLI_FLAGS[jr[0][3]],
+                                             [(st["name"], [f["name"] for f in st["fields"]]) for st in jr[1]["structs"]]
+                                             if jr[1]["ok"] else None), zip(jobs, ref)))
+    for (cname, structs, yo, fl, ytext), (va, ap), r, c in zip(jobs, eff, ref, cli):
+        if (r["exc"] or "").startswith("HARNESS") or c.get("exc") == "HARNESS":
+            chk.broken_obligation("harness failure on a command-line case", (r["msg"] if r["exc"] else c["text"])[-300:])
+            continue
+        ok, flat = impl_flat(r)
+        coq_cases.append(f"(({coq_bool(va)}, {coq_bool(ap)}, {to_coq(structs)}), ({coq_bool(ok)}, {coq_zlist(flat)}))")
+        dist["command-line"] = dist.get("command-line", 0) + 1
+        nontrivial.add(("cli", cname, yo, fl))
+        # what the property demands for the effective setting, from the declarations alone
+        needs = None
+        true_sz = []
+        for st in structs:
+            uf = []
+            for kind, refx, ln in st[1]:
+                sz, al = (nat_size[refx], nat_size[refx]) if kind == "n" else true_sz[refx]
+                uf.append((sz * (ln or 1), al))
+            offs, so, al = natural_layout(uf)
+            if so != sum(x for x, _ in uf) and needs is None:
+                needs = True
+            true_sz.append((so, al))
+        must_reject = bool(va and not ap and needs)
+        rep = dict(yaml=ytext, command=c["cmd"], effective=dict(validate_alignment=va, auto_pad=ap), closure=cname,
+                   compiler_options=yo, flag=fl, cli=dict(rc=c["rc"], exc=c.get("exc"), text=c["text"][-400:]))
+        tag = f"{yo}/{fl}"
+        if must_reject and c["rc"] == 0:
+            chk.spec_failure(f"cli:padded-although-auto-pad-is-off:{tag}",
+                             f"{cname}: `{c['cmd']}` with compiler_options {yo}: accepted (and padded) a definition that needs "
+                             "padding although automatic padding is switched off", rep)
+        elif must_reject and c.get("exc") != "AlignmentError":
+            chk.spec_failure(f"cli:wrong-error:{tag}", f"{cname}: expected AlignmentError, got rc={c['rc']} {c.get('exc')}", rep)
+        elif not must_reject and c["rc"] != 0:
+            chk.spec_failure(f"cli:rejected:{tag}", f"{cname}: `{c['cmd']}` ({yo}) failed: {c['text'][-200:]}", rep)
+        elif (c["rc"] == 0) != bool(r["ok"]):
+            chk.spec_failure(f"cli:differs-from-parser:{tag}", f"{cname}: command line rc={c['rc']}, Parser(auto_pad={ap}, "
+                             f"validate_alignment={va}) {'accepts' if r['ok'] else 'raises ' + str(r['exc'])}", rep)
+        elif c["rc"] == 0 and va:
+            # same layout as the parser called directly: sizeof and every offset (padding fields included) per gcc
+            if not c["probe"] or "error" in c["probe"]:
+                chk.spec_failure(f"cli:header-differs:{tag}", f"{cname}: the header written by the command line lacks fields of the "
+                                 f"expected layout: {str((c['probe'] or {}).get('error'))[:200]}", rep)
+            elif r["probe"] and c["probe"] != r["probe"]:
+                chk.spec_failure(f"cli:layout-differs:{tag}", f"{cname}: {c['probe']} vs {r['probe']}", rep)
+    return coq_cases, len(jobs)
+
+
 def run(chk: Check):
     rng = random.Random(chk.seed)
     if not regen_or_report(chk):
@@ -333,6 +454,10 @@ def run(chk: Check):
             chk.spec_failure(key="layout:" + re.sub(r"S\d+|\d+", "#", v)[:80], desc=v,
                              replay=dict(yaml=to_yaml(structs), files=case["files"], auto_pad=ap,
                                          impl=dict(ok=res["ok"], exc=res["exc"], msg=res["msg"])))
+    ncore = len(coq_cases)
+    cli_cases, ncli = check_command_line(chk, names, nat_size, dist, nontrivial)
+    coq_cases += cli_cases
+    chk.cov["command_line_compiles"] = ncli
     bad, log = FAM.eval_cases(HEADER, coq_cases, per_file=60)
     chk.cov["evaluations"] = nstructs
     chk.cov["traces_validated_against_impl"] = len(coq_cases) - len([b for b in bad if b >= 0])
@@ -346,6 +471,9 @@ def run(chk: Check):
     chk.add_samples([dict(yaml=to_yaml(g[0]), auto_pad=g[1]) for g in (gen[0:1] + gen[-3:-1])
                      if len(to_yaml(g[0])) < 1500] + [dict(yaml=to_yaml(gen[len(gen) // 2][0]), auto_pad=gen[len(gen) // 2][1])])
     chk.assumptions += [
+        "command line (python -m pyrtma.compile), precedence taken as specification from compile.py main(): defaults AUTO_PAD / "
+        "VALIDATE_ALIGNMENT on; the root file's compiler_options replace them (an explicit `false` switches the setting off); "
+        "--no_auto_pad / --no_val_align can only switch off; the resulting setting must behave like Parser(auto_pad=.., validate_alignment=..)",
         "gcc x86-64 natural alignment (System V); other ABIs not modelled",
         "ctypes layout = natural layout (validated by the parser's own final assert and the gcc probe)",
         "field types of size>=1 with alignment in {1,2,4,8} dividing the size (true of the generated native table by C11_natives_wf; of nested structs by C11_nested_closed)",
@@ -353,7 +481,10 @@ def run(chk: Check):
     ]
     if bad:
         for b in bad[:3]:
-            if b >= 0:
+            if b >= ncore:
+                chk.broken_obligation("correspondence Model/Closure.v vs Parser differs (effective settings of a command-line case)",
+                                      cli_cases[b - ncore][:500])
+            elif b >= 0:
                 g = gen[b]
                 chk.broken_obligation("correspondence Model/Closure.v vs Parser differs",
                                       f"case {b} tag={g[3]} auto_pad={g[1]} yaml={to_yaml(g[0])[:400]} impl={impl_flat(results[b])}")
@@ -364,6 +495,12 @@ def run(chk: Check):
 def replay(path: str) -> int:
     d = json.load(open(path))
     r = d["replay"]
+    if "command" in r:
+        out = run_cli(r["yaml"], CLI_FLAGS[r["flag"]], None)
+        print(f"--- root.yaml ---\n{r['yaml']}\n--- {out['cmd']}\nexit status {out['rc']}  ({out.get('exc')})\n"
+              f"must behave like Parser(validate_alignment={r['effective']['validate_alignment']}, auto_pad={r['effective']['auto_pad']})\n"
+              + out["text"][-500:])
+        return 0
     two = len(r.get("files") or {}) > 1
     res = run_impl([dict(files=r.get("files") or {"root.yaml": r["yaml"]}, root="root.yaml", auto_pad=r["auto_pad"],
                          validate_alignment=True, import_coredefs=False, emit=[] if two else ["c"], probe_c=not two)])[0]
